@@ -50,6 +50,10 @@ def spec(tier):
             obs.append(CH(name=f"uncontended_{algo}_{'multi' if multi else 'single'}", harness="rsim.uncontended",
                           sym=dict(d0=I(1, 3), d1=I(1, 3), d2=I(1, 3)),
                           fixed=dict(algo=algo, multi=multi, n=3, m=1, cpus=4, ram=40), timeout=900))
+    # ... also with two-segment operators whose trailing segment may last a positive time that rounds to zero ticks
+    for algo, multi in (("priority", True), ("naive", False)) + ((("priority-pool", True), ("overbook", False)) if th else ()):
+        obs.append(CH(name=f"uncontended_tails_{algo}", harness="rsim.uncontended", sym=dict(d0=I(1, 2), d1=I(1, 2), t0=I(0, 25), t1=I(0, 25)),
+                      fixed=dict(algo=algo, multi=multi, n=2, d2=1, m=1, cpus=4, ram=40), timeout=900))
     cfg = dict(algo="priority", pools=1, multi=True, duration=10, pipes=patterns["mixed"])
     tsym = dict(cpus=I(1, 12), ma=I(1, 8))
     for w in ("completed", "fail", "suspend", "empty_class"):
